@@ -57,6 +57,10 @@ def replay(rec: Dict[str, Any]) -> List[Tuple[str, Dict[str, Any], str]]:
                 if node is None:
                     continue
                 disc = _edits(m, node, tbl, d, quick=bool(sname))
+                if not disc and not sname:
+                    disc = _nested_twice(m, node, tbl, d)
+                    if disc:
+                        disc = "pointer-object:" + disc
                 if disc:
                     disc = sname + disc
                     last = m.parts[-1] if m.parts else ""
@@ -105,6 +109,43 @@ def _edits(m: Any, node: Dict[str, Any], tbl: DocTable, d: int, quick: bool = Fa
                         return f"{how}:{mname}{wrong}"
                 except BaseException as e:  # noqa: BLE001
                     return f"{how}:{mname}{sname}-raised-{exc_family(e)}"
+    return ""
+
+
+def _subst(t: Any, new_t: Any) -> Any:
+    """The tagged document with the marker string "NEW" replaced by another tagged value."""
+    if isinstance(t, dict):
+        if t.get("t") == "str" and t.get("s") == [78, 69, 87]:
+            return new_t
+        return {k: _subst(v, new_t) for k, v in t.items()}
+    if isinstance(t, list):
+        return [_subst(v, new_t) for v in t]
+    return t
+
+
+def _nested_twice(m: Any, node: Dict[str, Any], tbl: DocTable, d: int) -> str:
+    """Replace the matched node by a value with containers inside, edit the inserted value in the result, apply the same
+    patch again: the second result is still the document with the node replaced by the value as it was given."""
+    from jsonpath import JSONPatch
+
+    nested = {"n": [1, {"k": []}]}
+    want = canon(_subst(node["replaced"], tag({"n": [1, {"k": []}]})))
+    try:
+        patch = JSONPatch().replace(m.pointer(), nested)
+        r1 = patch.apply(tbl.fresh(d))
+        if canon(tag(r1)) != want:
+            return "replace-with-a-container-edited-something-else"
+        cur = r1
+        for p in m.parts:
+            cur = cur[p]
+        cur["n"].append("edited-by-caller")
+        cur["n"][1]["k"].append("edited-by-caller")
+        if canon(tag(patch.apply(tbl.fresh(d)))) != want:
+            return "second-application-sees-the-callers-edit-of-the-first-result"
+        if nested != {"n": [1, {"k": []}]}:
+            return "callers-value-was-modified"
+    except BaseException as e:  # noqa: BLE001
+        return f"replace-with-a-container-raised-{exc_family(e)}"
     return ""
 
 
